@@ -23,8 +23,12 @@ import (
 	"seehuhn.de/go/pdf"
 	"seehuhn.de/go/pdf/document"
 	"seehuhn.de/go/pdf/font"
+	"seehuhn.de/go/pdf/font/cff"
+	"seehuhn.de/go/pdf/font/encoding/cidenc"
 	"seehuhn.de/go/pdf/font/gofont"
+	"seehuhn.de/go/pdf/font/opentype"
 	"seehuhn.de/go/pdf/font/standard"
+	"seehuhn.de/go/pdf/font/truetype"
 	"seehuhn.de/go/pdf/graphics/extract"
 	"seehuhn.de/go/pdf/page"
 	"seehuhn.de/go/pdf/pagetree"
@@ -45,7 +49,10 @@ var traceOpts = core.TLCOpts{Dir: "font", Module: "Trace_FontCodes", Cfg: "Trace
 type fontKind struct {
 	Label  string
 	Simple bool
-	Make   func() (font.Layouter, error)
+	// UTF8: composite font with the UTF-8 encoder (codes derived from the text,
+	// private use codes otherwise): any number of texts per glyph
+	UTF8 bool
+	Make func() (font.Layouter, error)
 }
 
 func fontKinds() []fontKind {
@@ -64,6 +71,27 @@ func fontKinds() []fontKind {
 		s := s
 		out = append(out, fontKind{Label: "sample/" + s.Label, Simple: !s.Composite, Make: func() (font.Layouter, error) { return s.MakeFont(), nil }})
 	}
+	// composite fonts with the UTF-8 encoder instead of the fixed Identity-H CMap
+	for _, g := range gofont.All {
+		g := g
+		out = append(out, fontKind{Label: fmt.Sprintf("gofont/%d/composite-utf8", int(g)), UTF8: true, Make: func() (font.Layouter, error) {
+			return g.NewComposite(&truetype.OptionsComposite{MakeEncoder: cidenc.NewCompositeUtf8})
+		}})
+	}
+	out = append(out,
+		fontKind{Label: "utf8/cff", UTF8: true, Make: func() (font.Layouter, error) {
+			return cff.NewComposite(verifx.OpenType(), &cff.OptionsComposite{MakeEncoder: cidenc.NewCompositeUtf8})
+		}},
+		fontKind{Label: "utf8/opentype-cff", UTF8: true, Make: func() (font.Layouter, error) {
+			return opentype.NewComposite(verifx.OpenType(), &opentype.OptionsComposite{MakeEncoder: cidenc.NewCompositeUtf8})
+		}},
+		fontKind{Label: "utf8/opentype-glyf", UTF8: true, Make: func() (font.Layouter, error) {
+			return opentype.NewComposite(verifx.TrueType(), &opentype.OptionsComposite{MakeEncoder: cidenc.NewCompositeUtf8})
+		}},
+		fontKind{Label: "utf8/truetype", UTF8: true, Make: func() (font.Layouter, error) {
+			return truetype.NewComposite(verifx.TrueType(), &truetype.OptionsComposite{MakeEncoder: cidenc.NewCompositeUtf8})
+		}},
+	)
 	return out
 }
 
@@ -105,11 +133,41 @@ func pool(F font.Layouter) []pair {
 	return out
 }
 
-func altText(t string) string {
-	if t == " " {
-		return " "
+const nTexts = 5
+
+// variant gives the text of a pair for text variant tv (1 = the text Layout gave).
+// Fonts with the UTF-8 encoder get the texts its allocator treats specially:
+// private use characters (its own private codes start at U+E000), the empty
+// text, and one text repeated for different glyphs.
+func variant(k fontKind, t string, slot, tv int) string {
+	tv = (tv-1)%nTexts + 1
+	if k.UTF8 {
+		switch tv {
+		case 2:
+			return t + "!"
+		case 3:
+			return string(rune(0xe000 + slot%6))
+		case 4:
+			return ""
+		case 5:
+			return "x"
+		}
+		return t
 	}
-	return t + "!"
+	switch tv {
+	case 2:
+		if t == " " {
+			return "\u00a0"
+		}
+		return t + "!"
+	case 3:
+		return t + "?"
+	case 4:
+		return t + "#"
+	case 5:
+		return t + "%"
+	}
+	return t
 }
 
 // ---------------------------------------------------------------------------
@@ -226,6 +284,7 @@ func execute(dc *docCase, kinds map[string]fontKind) (rec record, herr error) {
 	}()
 	var fonts []font.Layouter
 	var pools [][]pair
+	var fkinds []fontKind
 	for _, label := range dc.Fonts {
 		k, ok := kinds[label]
 		if !ok {
@@ -241,11 +300,12 @@ func execute(dc *docCase, kinds map[string]fontKind) (rec record, herr error) {
 		}
 		fonts = append(fonts, F)
 		pools = append(pools, p)
+		fkinds = append(fkinds, k)
 		c := capComposite
 		if k.Simple {
 			c = 256
 		}
-		rec.Fonts = append(rec.Fonts, fontJ{Label: label, Cap: c, PerGlyph: !k.Simple})
+		rec.Fonts = append(rec.Fonts, fontJ{Label: label, Cap: c, PerGlyph: !k.Simple && !k.UTF8})
 	}
 
 	buf := &bytes.Buffer{}
@@ -258,11 +318,10 @@ func execute(dc *docCase, kinds map[string]fontKind) (rec record, herr error) {
 	cur := -1
 	offered := map[string]bool{}
 	nOffered := make([]int, len(fonts))
+	order := make([][]pair, len(fonts))
 	bind := func(f int, it item) pair {
 		p := pools[f][(it.Slot-1)%len(pools[f])]
-		if it.TV%2 == 0 {
-			p.Text = altText(p.Text)
-		}
+		p.Text = variant(fkinds[f], p.Text, it.Slot, it.TV)
 		return p
 	}
 	encode := func(f int, p pair) {
@@ -285,6 +344,24 @@ func execute(dc *docCase, kinds map[string]fontKind) (rec record, herr error) {
 		}
 		rec.Events = append(rec.Events, e)
 	}
+	show := func(f int, ps []pair) {
+		if cur != f {
+			doc.TextSetFont(fonts[f], 10)
+			cur = f
+		}
+		seq := &font.GlyphSeq{}
+		e := newEvent("show", f+1)
+		for _, p := range ps {
+			e.Pairs = append(e.Pairs, pairJ{p.GID, runes(p.Text)})
+			seq.Seq = append(seq.Seq, font.Glyph{GID: glyphID(p.GID), Text: p.Text, Advance: advanceOf(fonts[f], p)})
+		}
+		doc.TextShowGlyphs(seq)
+		doc.TextSecondLine(0, -1)
+		rec.Events = append(rec.Events, e)
+		if doc.Err != nil {
+			rec.Err = "TextShowGlyphs: " + doc.Err.Error()
+		}
+	}
 	for _, st := range dc.B.Steps {
 		f := st.F - 1
 		if f < 0 || f >= len(fonts) {
@@ -293,6 +370,36 @@ func execute(dc *docCase, kinds map[string]fontKind) (rec record, herr error) {
 		var ps []pair
 		for _, it := range st.Items {
 			ps = append(ps, bind(f, it))
+		}
+		switch st.Op {
+		case "fill":
+			// fresh pairs until the font has no code left (simple fonts only)
+			if rec.Fonts[f].Cap > 256 {
+				continue
+			}
+			for tv := 1; tv <= nTexts && nOffered[f] < rec.Fonts[f].Cap; tv++ {
+				for slot := 1; slot <= len(pools[f]) && nOffered[f] < rec.Fonts[f].Cap; slot++ {
+					p := bind(f, item{Slot: slot, TV: tv})
+					k := fmt.Sprint(f, p)
+					if offered[k] {
+						continue
+					}
+					offered[k] = true
+					order[f] = append(order[f], p)
+					nOffered[f]++
+					encode(f, p)
+				}
+			}
+			continue
+		case "showall":
+			// every pair offered to the font so far, sixteen per text-showing operator
+			for lo := 0; lo < len(order[f]); lo += 16 {
+				show(f, order[f][lo:min(lo+16, len(order[f]))])
+				if rec.Err != "" {
+					return rec, nil
+				}
+			}
+			continue
 		}
 		if !dc.Overflow {
 			// stay within the font's capacity: pairs a full font has not seen are dropped
@@ -304,11 +411,21 @@ func execute(dc *docCase, kinds map[string]fontKind) (rec record, herr error) {
 				}
 				if !offered[k] {
 					nOffered[f]++
+					order[f] = append(order[f], p)
 				}
 				offered[k] = true
 				kept = append(kept, p)
 			}
 			ps = kept
+		} else {
+			for _, p := range ps {
+				k := fmt.Sprint(f, p)
+				if !offered[k] {
+					offered[k] = true
+					nOffered[f]++
+					order[f] = append(order[f], p)
+				}
+			}
 		}
 		for _, p := range ps {
 			encode(f, p)
@@ -316,26 +433,8 @@ func execute(dc *docCase, kinds map[string]fontKind) (rec record, herr error) {
 		if st.Op != "show" {
 			continue
 		}
-		if cur != f {
-			doc.TextSetFont(fonts[f], 10)
-			cur = f
-		}
-		seq := &font.GlyphSeq{}
-		e := newEvent("show", f+1)
-		for _, p := range ps {
-			e.Pairs = append(e.Pairs, pairJ{p.GID, runes(p.Text)})
-			w := 0.0
-			seq.Seq = append(seq.Seq, font.Glyph{GID: glyphID(p.GID), Text: p.Text, Advance: w})
-		}
-		// natural advances: the width the font reports for the glyph
-		for i := range seq.Seq {
-			seq.Seq[i].Advance = advanceOf(fonts[f], ps[i])
-		}
-		doc.TextShowGlyphs(seq)
-		doc.TextSecondLine(0, -1)
-		rec.Events = append(rec.Events, e)
-		if doc.Err != nil {
-			rec.Err = "TextShowGlyphs: " + doc.Err.Error()
+		show(f, ps)
+		if rec.Err != "" {
 			return rec, nil
 		}
 	}
@@ -482,7 +581,7 @@ func advanceOf(F font.Layouter, p pair) float64 {
 // ---------------------------------------------------------------------------
 
 func genBehaviours(ctx *core.Ctx, nf int, seed int64, walks, sweeps int) ([]behaviour, error) {
-	cfg := fmt.Sprintf("INIT Init\nNEXT Next\nCONSTANTS NF = %d\n NSlots = %d\n NTexts = 2\n Steps = %d\n MaxShow = 12\n NWalks = %d\n NSweeps = %d\n SweepTo = %d\n",
+	cfg := fmt.Sprintf("INIT Init\nNEXT Next\nCONSTANTS NF = %d\n NSlots = %d\n NTexts = 5\n Steps = %d\n MaxShow = 12\n NWalks = %d\n NSweeps = %d\n SweepTo = %d\n",
 		nf, ctx.Pick(60, 120), ctx.Pick(30, 60), walks, sweeps, 300)
 	bs, _, err := core.GenCases[behaviour](ctx, core.TLCOpts{Dir: "font", Module: "Gen_FontCodes", CfgText: cfg, Mode: "simulate-gen",
 		Seed: seed, XmxMB: 2000, Timeout: ctx.Dur(5, 15), Quiet: true})
@@ -536,50 +635,74 @@ func run(ctx *core.Ctx) error {
 		}
 	}
 
-	// documents: every font kind appears; companions are drawn at random
+	// documents: every font kind is the first font of one document per round
+	// (companions are drawn at random).  A simple font's own document is a sweep:
+	// its first font is filled up to its 256 codes and everything is shown, so that
+	// every code 0..255 of every simple font kind is read back.  A few extra sweeps
+	// go beyond the limit (their files cannot be closed, see Trace_FontCodes).
 	rd := ctx.Rand("documents")
-	rounds := ctx.Pick(1, 10)
+	rounds := ctx.Pick(1, 6)
 	var docs []*docCase
-	perNF := map[int][]*docCase{}
-	for round := 0; round < rounds; round++ {
-		order := rd.Perm(len(kinds))
-		for _, ki := range order {
-			nf := 2 + rd.Intn(3)
-			dc := &docCase{Version: versionNames[rd.Intn(len(versionNames))], Pretty: rd.Intn(2) == 0}
-			dc.Fonts = append(dc.Fonts, kinds[ki].Label)
-			for len(dc.Fonts) < nf {
-				dc.Fonts = append(dc.Fonts, kinds[rd.Intn(len(kinds))].Label)
-			}
+	type want struct{ walks, sweeps []*docCase }
+	perNF := map[int]*want{2: {}, 3: {}, 4: {}}
+	newDoc := func(primary fontKind, sweep, overflow bool) {
+		nf := 2 + rd.Intn(3)
+		dc := &docCase{Pretty: rd.Intn(2) == 0, Overflow: overflow}
+		dc.Fonts = append(dc.Fonts, primary.Label)
+		for len(dc.Fonts) < nf {
+			dc.Fonts = append(dc.Fonts, kinds[rd.Intn(len(kinds))].Label)
+		}
+		if !sweep {
 			rd.Shuffle(len(dc.Fonts), func(i, j int) { dc.Fonts[i], dc.Fonts[j] = dc.Fonts[j], dc.Fonts[i] })
-			lo := 0
-			for _, l := range dc.Fonts {
-				lo = max(lo, minVer[l])
-			}
-			dc.Version = versionNames[lo+rd.Intn(len(versionNames)-lo)]
-			perNF[nf] = append(perNF[nf], dc)
-			docs = append(docs, dc)
+		}
+		lo := 0
+		for _, l := range dc.Fonts {
+			lo = max(lo, minVer[l])
+		}
+		dc.Version = versionNames[lo+rd.Intn(len(versionNames)-lo)]
+		if sweep {
+			perNF[nf].sweeps = append(perNF[nf].sweeps, dc)
+		} else {
+			perNF[nf].walks = append(perNF[nf].walks, dc)
+		}
+		docs = append(docs, dc)
+	}
+	var simpleKinds []fontKind
+	for _, k := range kinds {
+		if k.Simple {
+			simpleKinds = append(simpleKinds, k)
 		}
 	}
+	for round := 0; round < rounds; round++ {
+		for _, ki := range rd.Perm(len(kinds)) {
+			// from the second round on, simple fonts also get random walks
+			newDoc(kinds[ki], kinds[ki].Simple && round%2 == 0, false)
+		}
+	}
+	for i := 0; i < ctx.Pick(4, 16); i++ {
+		newDoc(simpleKinds[rd.Intn(len(simpleKinds))], true, true)
+	}
 	for nf := 2; nf <= 4; nf++ { // fixed order: the seeded generator is shared
-		ds := perNF[nf]
-		if len(ds) == 0 {
+		w := perNF[nf]
+		if len(w.walks)+len(w.sweeps) == 0 {
 			continue
 		}
-		sweeps := len(ds) / 4
-		bs, err := genBehaviours(ctx, nf, ctx.Seed*100+int64(nf), len(ds)-sweeps, sweeps)
+		bs, err := genBehaviours(ctx, nf, ctx.Seed*100+int64(nf), len(w.walks), len(w.sweeps))
 		if err != nil {
 			wg.Wait()
 			return err
 		}
-		if len(bs) != len(ds) {
+		if len(bs) != len(w.walks)+len(w.sweeps) {
 			wg.Wait()
-			return core.Infra("Gen_FontCodes produced %d behaviours, wanted %d", len(bs), len(ds))
+			return core.Infra("Gen_FontCodes produced %d behaviours, wanted %d", len(bs), len(w.walks)+len(w.sweeps))
 		}
-		rd.Shuffle(len(bs), func(i, j int) { bs[i], bs[j] = bs[j], bs[i] })
-		for i, d := range ds {
-			d.B = bs[i]
-			d.Overflow = bs[i].Kind == "sweep" && i%2 == 0
-			d.Origin = fmt.Sprintf("%s/%s/v%s", bs[i].Kind, strings.Join(d.Fonts, "+"), d.Version)
+		for i, d := range append(append([]*docCase{}, w.walks...), w.sweeps...) {
+			d.B = bs[i] // Gen_FontCodes emits the walks first, then the sweeps
+			kind := bs[i].Kind
+			if d.Overflow {
+				kind += "-overflow"
+			}
+			d.Origin = fmt.Sprintf("%s/%s/v%s", kind, strings.Join(d.Fonts, "+"), d.Version)
 		}
 	}
 	ctx.Ev.AddReplayed(len(docs))
@@ -788,16 +911,19 @@ func classify(r *record, tolerant bool) (string, string) {
 				}
 				continue
 			}
-			if _, used := t.info[fmt.Sprint(e.C)]; used {
-				if tolerant && r.Fonts[e.F-1].PerGlyph && t.info[fmt.Sprint(e.C)].G == e.G {
+			if holder, used := t.info[fmt.Sprint(e.C)]; used {
+				// the recorded finding: a font with one code per glyph answers the
+				// glyph's code for a second text of the same glyph
+				known := r.Fonts[e.F-1].PerGlyph && holder.G == e.G
+				if known && tolerant {
 					t.code[pk(e.G, e.T)] = e.C // alias of the glyph's one code
 					continue
 				}
 				cl := kindOf(e.F)
-				if r.Fonts[e.F-1].Cap > 256 {
-					cl = "composite" // one cause for all composite fonts with a fixed CMap: GetCode ignores the text
+				if known {
+					cl = "composite"
 				}
-				return "encode/code-shared/" + cl, fmt.Sprintf("Encode(%d, %q) returns code %v which another (glyph, text) pair holds", e.G, string(toRunes(e.T)), e.C)
+				return "encode/code-shared/" + cl, fmt.Sprintf("Encode(%d, %q) returns code %v which the pair (%d, %q) holds", e.G, string(toRunes(e.T)), e.C, holder.G, string(toRunes(holder.T)))
 			}
 			if fmt.Sprint(e.WT) != fmt.Sprint(e.T) {
 				return "encode/writer-text/" + kindOf(e.F), fmt.Sprintf("writer-side Codes gives text %q for the pair (%d, %q)", string(toRunes(e.WT)), e.G, string(toRunes(e.T)))
